@@ -115,7 +115,7 @@ OrderOrNamed(ver, kind, a) == IF ver \in {"3.0", "3.1"} THEN ErrAbv(kind, a) ELS
 (* ---- build phase ------------------------------------------------------------------------ *)
 Tag(f, k) == [f |-> f, k |-> k]
 
-IsMajor == inp.tag.f = "major"
+IsMajor == inp.maj
 
 Build(p, tag, exp) ==
   /\ els' = p
@@ -124,7 +124,11 @@ Build(p, tag, exp) ==
   /\ UNCHANGED <<ps, out>>
 
 
-CanDeviate == ps.pc = "build" /\ ndev < MaxDev
+(* a second deviation (thorough tier, MaxDev = 2) combines two LIGHT deviations (legal value,  *)
+(* delete, swap, truncate) on a major spine; the heavy alphabets are applied once only          *)
+Light == inp.tag.f \in {"value", "delete", "swap", "trunc"}
+First == ndev = 0
+CanDeviate == ps.pc = "build" /\ ndev < MaxDev /\ (First \/ (IsMajor /\ Light))
 
 (* replace element k by a legal element of the same metric (stays accepted) *)
 DevValue ==
@@ -138,7 +142,7 @@ DevValue ==
 
 (* replace element k by an illegal value of its own metric: a single defect *)
 DevBadValue ==
-  /\ CanDeviate /\ IsMajor /\ Fam \in {"all", "defects"}
+  /\ CanDeviate /\ First /\ IsMajor /\ Fam \in {"all", "defects"}
   /\ \E k \in 1..Len(els) :
        LET m == MetricAt(inp.ver, els[k])
        IN  /\ m # NoMetric
@@ -149,7 +153,7 @@ DevBadValue ==
 
 (* replace element k by any other token *)
 DevReplace ==
-  /\ CanDeviate /\ IsMajor /\ Fam = "all"
+  /\ CanDeviate /\ First /\ IsMajor /\ Fam = "all"
   /\ \E k \in 1..Len(els) :
        LET m == MetricAt(inp.ver, els[k])
            toks == AllLegal \cup (IF m # NoMetric THEN LocalJunk(inp.ver, m) ELSE {})
@@ -157,7 +161,7 @@ DevReplace ==
 
 (* insert a token at position j: unknown / repeated / misplaced metric *)
 DevInsert ==
-  /\ CanDeviate /\ IsMajor /\ Fam \in {"all", "defects"}
+  /\ CanDeviate /\ First /\ IsMajor /\ Fam \in {"all", "defects"}
   /\ \E j \in 1..(Len(els) + 1) :
        LET near == IF j <= Len(els) THEN els[j] ELSE els[Len(els)]
            m == MetricAt(inp.ver, near)
@@ -185,7 +189,7 @@ DevDelete ==
 
 (* duplicate element k at position j *)
 DevDup ==
-  /\ CanDeviate /\ Fam \in {"all", "defects"}
+  /\ CanDeviate /\ First /\ Fam \in {"all", "defects"}
   /\ \E k \in 1..Len(els) : \E j \in 1..(Len(els) + 1) :
        /\ (IsMajor \/ j \in {k, k + 1, 1, Len(els) + 1})
        /\ MetricAt(inp.ver, els[k]) # NoMetric
@@ -245,7 +249,7 @@ Init ==
     \E maj \in BOOLEAN :
       \E p \in (IF maj THEN Major(ver) ELSE Minor(ver) \ Major(ver)) :
         /\ inp = [ver |-> ver, b |-> <<>>, tag |-> Tag(IF maj THEN "major" ELSE "minor", 0),
-                  exp |-> NoExp]
+                  exp |-> NoExp, maj |-> maj]
         /\ ps = PInit(ver, "build")
         /\ els = p
         /\ ndev = 0
